@@ -50,6 +50,11 @@ def nontrivial(ln, model_out):
 
 def search(ln, a, b, harness, driver):
     p = ln.split()
+    if p[0].startswith("core3."):
+        # the proved translation rejects what the implementation accepts (or the other way round): the text itself is the failing input
+        if (a.split()[0] == "ok") != (b.split()[0] == "ok"):
+            return {"ops": [ln], "impl": [a], "model": [b]}
+        return None
     c = "!mod.mustfail %s %s" % (p[1], p[2])
     x = C.run_lines([harness, "run"], [c])[0]
     y = C.run_lines([driver], [c])[0]
